@@ -182,8 +182,14 @@ theorem tot_logic f8 f16 : Tot true (logic f8 f16) := by
 theorem tot_blockMove (i : Bool) : Tot p (blockMove i) := by
   unfold blockMove; tot_tac
 
+theorem tot_interruptBody a b c d : Tot p (interruptBody a b c d) := by
+  unfold interruptBody; tot_tac
 theorem tot_interruptLike a b c : Tot p (interruptLike a b c) := by
-  unfold interruptLike; tot_tac
+  unfold interruptLike
+  refine tot_bind _ _ tot_get (fun _ => tot_bind _ _ (tot_interruptBody _ _ _ _) (fun _ => ?_))
+  tot_tac
+theorem tot_rtiBody e : Tot p (rtiBody e) := by
+  unfold rtiBody; tot_tac
 
 theorem tot_branchIf f : Tot p (branchIf f) := by
   unfold branchIf; tot_tac
@@ -191,7 +197,7 @@ theorem tot_branchIf f : Tot p (branchIf f) := by
 
 macro_rules | `(tactic| tot_prim) => `(tactic| with_reducible
   first | exact tot_op_adcLike _ | exact tot_rmw _ _ _ | exact tot_logic _ _ | exact tot_blockMove _
-        | exact tot_interruptLike _ _ _ | exact tot_branchIf _)
+        | exact tot_interruptLike _ _ _ | exact tot_branchIf _ | exact tot_rtiBody _)
 
 theorem tot_runP (q : Proc) : Tot true (runP q) := by
   cases q <;> unfold runP <;> simp only <;> tot_tac
@@ -221,7 +227,7 @@ theorem tot_stepWith (sem : U8 → RowSem) (adj : U8 → CycAdj) : Tot false (st
   · exact tot_modify _ (fun _ => rfl)
   refine tot_bind _ _ (tot_addressing _) (fun r => ?_)
   apply tot_setEA
-  · intro c; exact mod_lt _
+  · intro c; unfold adjustRegs; exact mod_lt _
   refine tot_bind _ _ (tot_runP _) (fun _ => ?_)
   exact tot_modify _ (fun _ => rfl)
 
